@@ -53,6 +53,7 @@ class Registry:
         self.spec_fns: dict[str, tuple[list[str], str]] = {}
         self.modules: set[str] = set()
         self.class_invariants: dict[str, list[str]] = {}
+        self.opaque_classes: dict[str, dict[str, str]] = {}
 
     def contract(self, target: str, **kw) -> Contract:
         loops = kw.pop("loops", {})
@@ -74,6 +75,12 @@ class Registry:
 
     def spec_fn(self, name: str, params: list[str], expr: str) -> None:
         self.spec_fns[name] = (params, expr)
+
+    def opaque_class(self, name: str, fields: dict[str, str]) -> None:
+        """A class from a dependency (e.g. an ANTLR context) known only by the typed fields the verified code reads."""
+        self.opaque_classes[name] = fields
+        for f, t in fields.items():
+            self.field_types[f"{name}.{f}"] = t
 
     def load_module(self, module: str) -> None:
         self.modules.add(module)
